@@ -18,7 +18,7 @@ ALPHABET = ["", "a", "b", "a b", "a  b", " a", "a<&>\"", "ä€", "a\tb", "a\nb"
 SMALL = ["", "a", "b", "a b", " a"]
 SWITCHES = [
     {"col_runs": True}, {"row_runs": True}, {"all_spaces_as_s": True}, {"explicit_c": True}, {"paragraphs": True}, {"span_at": 1, "spans": "head"}, {"span_at": 2, "spans": "tail"},
-    {"empty_as_p": True}, {"encoding": "UTF-16"}, {"filler": True}, {"span_range": [1, 5]}, {"span_range": [0, 4], "span_nested": True}, {"annotations": True},
+    {"empty_as_p": True}, {"encoding": "UTF-16"}, {"filler": True}, {"span_range": [1, 5]}, {"span_range": [0, 4], "span_nested": True}, {"annotations": True}, {"pretty": True},
 ]
 STRUCTURED = [
     [["a", "a", "a", "b"], ["a", "a", "a", "b"], ["b", "", "", ""]],
@@ -59,6 +59,8 @@ def judge(case, part):
     """case: {"sheets": [table, ...], "sheet": k, "features": {...}}"""
     import cutplace
 
+    if "kind" in case:  # replay of a fault case
+        return fault_case(case, part)
     m = harness.modules()
     sheets, sheet, features = case["sheets"], case["sheet"], case.get("features", {})
     if "encoding" in features and features["encoding"] == "ISO-8859-1":
@@ -129,6 +131,20 @@ def judge(case, part):
         part.validated += 1
         if back != expected:
             part.fail(tag % "cutplace.rows-differs", case, expected, back)
+        # the document as a stream in memory that carries the name of another, existing document: the stream is what is read
+        other_path = path_for("other")
+        odf.write_ods(other_path, [[["other", "document"]]] * len(sheets), {})
+        try:
+            with open(path, "rb") as stream:
+                named = io.BytesIO(stream.read())
+            named.name = other_path
+            back = [list(row) for row in list(cutplace.rows(harness.make_cid(rows), named))]
+        except Exception as error:
+            back = "raised-%s: %s" % (type(error).__name__, error)
+        part.transitions += 1
+        part.validated += 1
+        if back != expected:
+            part.fail(tag % "cutplace.rows-from-a-named-stream-differs", case, expected, back)
 
 
 def fault_case(case, part):
@@ -152,6 +168,17 @@ def fault_case(case, part):
         odf.write_ods(path, [table], {"col_runs": True, "col_count_text": case["text"]})
     elif kind == "bad-row-count":
         odf.write_ods(path, [table], {"row_runs": True, "row_count_text": case["text"]})
+    elif kind == "absurd-content":
+        # counts no table can hold and nesting deeper than any document: still problems of the data, to be reported as such
+        content = odf.content_xml([[["a  b", "c"]]], {"all_spaces_as_s": True, "explicit_c": True}).decode("utf-8")
+        if case["what"] == "blank-count":
+            content = content.replace('text:c="2"', 'text:c="99999999999999999999"')
+        elif case["what"] == "column-count":
+            content = content.replace("<table:table-cell>", '<table:table-cell table:number-columns-repeated="99999999999999999999">', 1)
+        else:
+            content = content.replace("<text:p>c</text:p>", "<text:p>" + "<text:span>" * 3000 + "c" + "</text:span>" * 3000 + "</text:p>")
+        assert content != odf.content_xml([[["a  b", "c"]]], {"all_spaces_as_s": True, "explicit_c": True}).decode("utf-8"), case
+        odf.write_ods(path, [[["a  b", "c"]]], {}, raw_content=content.encode("utf-8"))
     elif kind == "missing-sheet":
         odf.write_ods(path, [table] * case["sheets"], features)
         sheet = case["sheet"]
@@ -169,7 +196,7 @@ def fault_case(case, part):
     part.validated += 1
     part.outcome("fault:" + outcome)
     if outcome != "DataFormatError":
-        what = case.get("text", "")
+        what = case.get("text", "") or case.get("what", "")
         part.fail("fault:%s%s|%s" % (kind, (":" + what) if what else "", "read-without-error" if outcome == "rows" else outcome), case, "DataFormatError", detail)
 
 
@@ -236,6 +263,8 @@ def run(ctx):
     for text in ("0", "-1", "x", "1.5", "", "1e2", " ", "--1", "+-1", "-", "+", "0x2", "1 2", "1_0x", "\u00b2", "1\u00b2", "\u2460", "\u2082", "\u0663x", "-0", "00", "NaN", "1,0"):
         faults.append({"kind": "bad-column-count", "text": text})
         faults.append({"kind": "bad-row-count", "text": text})
+    for what in ("blank-count", "column-count", "nested-spans"):
+        faults.append({"kind": "absurd-content", "what": what})
     for sheets in (1, 2, 3):
         faults.append({"kind": "missing-sheet", "sheets": sheets, "sheet": sheets + 1})
         faults.append({"kind": "missing-sheet", "sheets": sheets, "sheet": sheets + 5})
